@@ -26,46 +26,86 @@ theorem parseInt64_range (str : String) (i : Int) (h : parseInt64 str = some i) 
     · simp at h
   · simp at h
 
+theorem str_of_kind (v : GoVal F) (h : v.kind = .str) (hw : v.wf = true) : ∃ str, v = .str str := by
+  cases v with
+  | int k x => simp only [GoVal.kind] at h; subst h; simp [GoVal.wf, kindRange] at hw
+  | flt k x => simp only [GoVal.kind] at h; subst h; simp [GoVal.wf, Kind.isFloat] at hw
+  | str str => exact ⟨str, rfl⟩
+  | nil => simp [GoVal.kind] at h
+  | bool _ => simp [GoVal.kind] at h
+  | sym _ => simp [GoVal.kind] at h
+  | time _ => simp [GoVal.kind] at h
+  | other _ => simp [GoVal.kind] at h
+
 /-- **C05_leaf_resp.** -/
 theorem C05_leaf_resp (ext : Ext F) (laws : ExtLaws ext) (s : Scalar) (tbl : Table) (v : GoVal F) (n : Bool)
     (hft : tbl.formatTime = (s == .time)) (hs : armSoundOutR n s v.kind (tbl.armFor v.kind) = true) (hw : v.wf = true) :
     checkOut ext s v (leafOut n (coerce ext tbl v)) = true := by
-  simp only [armSoundOutR, Bool.or_eq_true, Bool.and_eq_true, beq_iff_eq] at hs
-  rcases hs with hs | ⟨⟨hn, hk⟩, hm⟩
+  simp only [armSoundOutR, Bool.or_eq_true, Bool.and_eq_true] at hs
+  rcases hs with hs | ⟨hn, hm⟩
   · exact checkOut_leafOut ext s v _ n (C05_leaf ext laws s tbl v hft hs hw)
   · subst hn
-    cases v with
-    | int k x => simp only [GoVal.kind] at hk; subst hk; simp [GoVal.wf, kindRange] at hw
-    | flt k x => simp only [GoVal.kind] at hk; subst hk; simp [GoVal.wf, Kind.isFloat] at hw
-    | nil => simp [GoVal.kind] at hk
-    | bool _ => simp [GoVal.kind] at hk
-    | sym _ => simp [GoVal.kind] at hk
-    | time _ => simp [GoVal.kind] at hk
-    | other _ => simp [GoVal.kind] at hk
-    | str str =>
-      generalize ha : tbl.armFor (GoVal.str str : GoVal F).kind = a at hm
+    generalize ha : tbl.armFor v.kind = a at hm
+    cases s <;> cases a <;> (try (simp at hm; done))
+    · -- Int ← range-checked integer
+      rename_i t; cases t <;> simp at hm
+      obtain ⟨k, x, rfl, _⟩ := int_of_kind v hm hw
       simp only [GoVal.kind] at ha
-      cases s <;> cases a <;> (try (simp at hm; done))
-      · -- Int64 ← string
-        rename_i t; cases t <;> simp at hm
-        simp only [coerce, GoVal.kind, ha, applyAction, hft]
-        cases hp : parseInt64 str with
-        | none => simp [leafOut, checkOut]
-        | some i =>
-          have hr := parseInt64_range str i hp
-          have hr' := hr
-          simp only [inRange64, Bool.and_eq_true, decide_eq_true_eq] at hr'
-          simp [leafOut, checkOut, NumT.kind, GoVal.kind, Scalar.outKind, wrapInt, wrap64_id i hr'.1 hr'.2, hr, intValue, hp]
-      · -- Boolean ← string
-        simp only [coerce, GoVal.kind, ha, applyAction, hft]
-        cases hp : parseBool str with
-        | none => simp [leafOut, checkOut]
-        | some b => simp [leafOut, checkOut, GoVal.kind, Scalar.outKind]
-      · -- Time ← string
-        simp only [coerce, GoVal.kind, ha, applyAction, hft]
-        cases hp : ext.timeParse str with
-        | none => simp [leafOut, checkOut]
-        | some t => simp [leafOut, checkOut, GoVal.kind, Scalar.outKind]
+      simp only [coerce, GoVal.kind, ha, applyAction, hft]
+      by_cases hr : inRange32 x = true
+      · have hr' := hr
+        simp only [inRange32, Bool.and_eq_true, decide_eq_true_eq] at hr'
+        simp [leafOut, checkOut, convTo, GoVal.kind, Scalar.outKind, wrapInt, wrap32_id x hr'.1 hr'.2, hr, intValue]
+      · simp [leafOut, checkOut, hr]
+    · -- Int ← string, bit size 32
+      simp only [beq_iff_eq] at hm
+      obtain ⟨str, rfl⟩ := str_of_kind v hm hw
+      simp only [GoVal.kind] at ha
+      simp only [coerce, GoVal.kind, ha, applyAction, hft]
+      cases hp : parseInt64 str with
+      | none => simp [leafOut, checkOut]
+      | some i =>
+        by_cases hr : inRange32 i = true
+        · simp [leafOut, checkOut, GoVal.kind, Scalar.outKind, hr, intValue, hp]
+        · simp [leafOut, checkOut, hr]
+    · -- Int64 ← range-checked integer
+      rename_i t; cases t <;> simp at hm
+      obtain ⟨k, x, rfl, _⟩ := int_of_kind v hm hw
+      simp only [GoVal.kind] at ha
+      simp only [coerce, GoVal.kind, ha, applyAction, hft]
+      by_cases hr : inRange64 x = true
+      · have hr' := hr
+        simp only [inRange64, Bool.and_eq_true, decide_eq_true_eq] at hr'
+        simp [leafOut, checkOut, convTo, GoVal.kind, Scalar.outKind, wrapInt, wrap64_id x hr'.1 hr'.2, hr, intValue]
+      · simp [leafOut, checkOut, hr]
+    · -- Int64 ← string
+      rename_i t; cases t <;> simp at hm
+      obtain ⟨str, rfl⟩ := str_of_kind v hm hw
+      simp only [GoVal.kind] at ha
+      simp only [coerce, GoVal.kind, ha, applyAction, hft]
+      cases hp : parseInt64 str with
+      | none => simp [leafOut, checkOut]
+      | some i =>
+        have hr := parseInt64_range str i hp
+        have hr' := hr
+        simp only [inRange64, Bool.and_eq_true, decide_eq_true_eq] at hr'
+        simp [leafOut, checkOut, NumT.kind, GoVal.kind, Scalar.outKind, wrapInt, wrap64_id i hr'.1 hr'.2, hr, intValue, hp]
+    · -- Boolean ← string
+      simp only [beq_iff_eq] at hm
+      obtain ⟨str, rfl⟩ := str_of_kind v hm hw
+      simp only [GoVal.kind] at ha
+      simp only [coerce, GoVal.kind, ha, applyAction, hft]
+      cases hp : parseBool str with
+      | none => simp [leafOut, checkOut]
+      | some b => simp [leafOut, checkOut, GoVal.kind, Scalar.outKind]
+    · -- Time ← string
+      simp only [beq_iff_eq] at hm
+      obtain ⟨str, rfl⟩ := str_of_kind v hm hw
+      simp only [GoVal.kind] at ha
+      simp only [coerce, GoVal.kind, ha, applyAction, hft]
+      cases hp : ext.timeParse str with
+      | none => simp [leafOut, checkOut]
+      | some t => simp [leafOut, checkOut, GoVal.kind, Scalar.outKind]
 
 /-- what `C05_data` asks of a resolver value: every scalar leaf is a well-formed Go value whose arm passes
 the response-level test, enum leaves name a declared value (D17 excluded), no typed fast-path slice
